@@ -1,20 +1,23 @@
 (* The path-valued -printf directives (format_directive in printf.rs) over PathModel.  Definitions only. *)
-Require Import PathModel.
+Require Import PathModel Paths.
 From Coq Require Import List Arith Bool.
 Import ListNotations.
 
-(* WalkEntry::file_name: the text of the last component (whatever its kind), or the whole path when there is none *)
-Definition pv_f (path : str) : str :=
-  match rev (components path) with c :: _ => comp_text path c | [] => path end.
-(* %h: "" for "/" and for paths directly under "/", "." when there is no directory part *)
+(* split_last_component (printf.rs): the path as spelled, cut at its last component - trailing slashes are ignored,
+   "." and ".." count as components, a path of slashes only is "/" with an empty directory part.
+   %f is the last component: the same text -name matches against *)
+Definition pv_f (path : str) : str := name_subject path.
+(* the text before the last slash of [s]; [acc] is what has been read so far *)
+Fixpoint dir_seg (s acc : str) (dir : option str) : option str :=
+  match s with
+  | [] => dir
+  | c :: s' => if c =? SL then dir_seg s' (acc ++ [c]) (Some acc) else dir_seg s' (acc ++ [c]) dir
+  end.
+(* %h: the part before the last component; "." when there is none, "" for "/" and for paths directly under "/" *)
 Definition pv_h (path : str) : str :=
-  match parent path with
-  | None => []
-  | Some p => if str_eqb p [] then [DOT]
-              else match components p with
-                   | [c] => match ck c with CRoot => [] | _ => p end
-                   | _ => p
-                   end
+  match trim_end_sl path, path with
+  | [], _ :: _ => []
+  | t, _ => match dir_seg t [] None with Some d => d | None => [DOT] end
   end.
 (* %H: the starting point as it was given - process_dir records its length, and every path reported below it
    begins with exactly that text (C18: entry_path_prefix) *)
